@@ -50,7 +50,7 @@ func (c *sqlQueryChecker) VisitStmt(stmt ast.Stmt) {
 		return
 	}
 
-	if c.typeHasExecMethod(c.ctx.TypeOf(funcExpr.X)) {
+	if c.typeHasExecMethod(c.ctx.TypeOf(funcExpr.X), map[types.Type]bool{}) {
 		c.warnAndSuggestExec(funcExpr)
 	} else {
 		c.warnRowsIgnored(funcExpr)
@@ -117,18 +117,24 @@ func (c *sqlQueryChecker) funcIsExec(fn *types.Func) bool {
 	return true
 }
 
-func (c *sqlQueryChecker) typeHasExecMethod(typ types.Type) bool {
+func (c *sqlQueryChecker) typeHasExecMethod(typ types.Type, seen map[types.Type]bool) bool {
+	// Embedded pointers can form a cycle, like type T struct{ *T }.
+	if seen[typ] {
+		return false
+	}
+	seen[typ] = true
+
 	switch typ := typ.(type) {
 	case *types.Struct:
 		for i := 0; i < typ.NumFields(); i++ {
-			if c.typeHasExecMethod(typ.Field(i).Type()) {
+			if c.typeHasExecMethod(typ.Field(i).Type(), seen) {
 				return true
 			}
 		}
 	case *types.Alias:
 		switch typ := typ.Underlying().(type) {
 		case *types.Interface:
-			return c.typeHasExecMethod(typ)
+			return c.typeHasExecMethod(typ, seen)
 		default:
 			// TODO(cristaloleg): is there something else to handle?
 		}
@@ -139,7 +145,7 @@ func (c *sqlQueryChecker) typeHasExecMethod(typ types.Type) bool {
 			}
 		}
 	case *types.Pointer:
-		return c.typeHasExecMethod(typ.Elem())
+		return c.typeHasExecMethod(typ.Elem(), seen)
 	case *types.Named:
 		for i := 0; i < typ.NumMethods(); i++ {
 			if c.funcIsExec(typ.Method(i)) {
@@ -148,7 +154,7 @@ func (c *sqlQueryChecker) typeHasExecMethod(typ types.Type) bool {
 		}
 		switch ut := typ.Underlying().(type) {
 		case *types.Interface:
-			return c.typeHasExecMethod(ut)
+			return c.typeHasExecMethod(ut, seen)
 		case *types.Struct:
 			// Check embedded types.
 			for i := 0; i < ut.NumFields(); i++ {
@@ -156,7 +162,7 @@ func (c *sqlQueryChecker) typeHasExecMethod(typ types.Type) bool {
 				if !field.Embedded() {
 					continue
 				}
-				if c.typeHasExecMethod(field.Type()) {
+				if c.typeHasExecMethod(field.Type(), seen) {
 					return true
 				}
 			}
